@@ -469,12 +469,12 @@ def modelStmt (ver : Version) (mn : MNum) (st : MSt) (s : Stmt) : String × MSt 
            | some (.h3 v) =>
              -- v3: exact requests of the early-exit loops
              (match fprintFault3 c st.memo { w := faultWriter mode k } ps v ranges with
-              | some (.ok (r, mF)) => (s!"{r.written}/{r.err}/{hexOf r.accepted}{after}", { st with memo := mF })
+              | some (.ok (r, mF)) => (s!"{r.written}/{r.err}/{encAccepted r.accepted}{after}", { st with memo := mF })
               | some (.error p) => (p.tag, unknownMemo st)
               | none => ("?", unknownMemo st))
            | _ =>
              (match printRun ver { w := faultWriter mode k } maxDigits ps fs with
-              | .ok r => (s!"{r.written}/{r.err}/{hexOf r.accepted}{after}", unknownMemo st)
+              | .ok r => (s!"{r.written}/{r.err}/{encAccepted r.accepted}{after}", unknownMemo st)
               | .error p => (p.tag, unknownMemo st)))
         | _ =>
           (match printRun ver reliableSink maxDigits ps fs with
@@ -498,7 +498,7 @@ def modelStmt (ver : Version) (mn : MNum) (st : MSt) (s : Stmt) : String × MSt 
              if k % 13 != 0 ∧ k > 3 then ("?", unknownMemo st) else
              let after := if mn.counting then "/0" else ""
              (match fwriteFault3 c st.memo { w := faultWriter mode k } ps v xs.length with
-              | some (.ok (r, mF)) => (s!"{r.written}/{r.err}/{hexOf r.accepted}{after}", { st with memo := mF })
+              | some (.ok (r, mF)) => (s!"{r.written}/{r.err}/{encAccepted r.accepted}{after}", { st with memo := mF })
               | some (.error p) => (p.tag, unknownMemo st)
               | none => ("?", unknownMemo st))
            | _ =>
